@@ -2,7 +2,10 @@
 // h_x86fmt.cpp; here FormatterInternal::format_register is replaced by a harness stub that appends a fixed-length token naming
 // (type, id) exactly - "R" + 3 letters - so that the position of every later character is a constant for the solver. What is
 // decided: size keyword, segment, abs/rel marker, base, index, scale, sign and value of the displacement, the brackets, and that
-// nothing else is printed. The size / segment are constants per path (dispatch over all values), the rest is symbolic.
+// nothing else is printed. Size keyword, segment, abs/rel marker and scale are constants per path (each harness dispatches over all
+// values of one of them with the others fixed - the formatter appends them one after the other, independently); register types and
+// ids, the displacement and the format flags are symbolic. Constant prefixes keep the length of the text before the displacement a
+// constant: with a symbolic length every later append has to consider the path on which the string must grow.
 #include <asmjit/x86.h>
 #include <asmjit/x86/x86formatter_p.h>
 #include <asmjit/core/formatter_p.h>
@@ -49,27 +52,24 @@ template<uint32_t SEG> static inline void match_seg(Cur& c) {
   if constexpr (SEG == 6) c.lit("gs:");
 }
 
-// HAS_BASE / HAS_INDEX: operand shape. BT/IT: the register types (symbolic among the ones x86 addressing allows, they only travel
-// through the token). OFFBITS bounds the displacement magnitude on the decimal path.
-template<bool HAS_BASE, bool HAS_INDEX, uint32_t SIZE, uint32_t SEG, unsigned OFFBITS, unsigned MAXDEC> static void mem_case() {
-  uint32_t bid = 0, iid = 0, shift = 0;
-  RegType bt = RegType::kNone, it = RegType::kNone;
+// BT / IT: type of the base / index register (kNone: absent); they travel through the token. OFFBITS bounds the displacement magnitude on the decimal path.
+template<RegType BT, RegType IT, uint32_t SIZE, uint32_t SEG, uint32_t AT, uint32_t SHIFT, unsigned OFFBITS, unsigned MAXDEC> static void mem_case() {
+  constexpr bool HAS_BASE = BT != RegType::kNone, HAS_INDEX = IT != RegType::kNone;
+  uint32_t bid = 0, iid = 0; const uint32_t shift = HAS_INDEX ? SHIFT : 0, at = AT;
+  const RegType bt = BT, it = IT;   // constants: a symbolic type would make the whole operand signature (shift, segment, size, ...) symbolic
   x86::Mem m;
   int32_t off = int32_t(nondet_u32());
   if constexpr (HAS_BASE) {
-    static const RegType bts[4] = {RegType::kGp16, RegType::kGp32, RegType::kGp64, RegType::kPC};
-    bt = bts[nondet_u8() & 3]; bid = nondet_u8() & 31;
+    bid = nondet_u8() & 31;
   }
   if constexpr (HAS_INDEX) {
-    static const RegType its[8] = {RegType::kGp16, RegType::kGp32, RegType::kGp64, RegType::kVec128, RegType::kVec256, RegType::kVec512, RegType::kGp64, RegType::kGp32};
-    it = its[nondet_u8() & 7]; iid = nondet_u8() & 31; shift = nondet_u8() & 3;
+    iid = nondet_u8() & 31;
   }
   if constexpr (HAS_BASE && HAS_INDEX) m = x86::Mem(Reg::from_type_and_id(bt, bid), Reg::from_type_and_id(it, iid), shift, off, SIZE);
   else if constexpr (HAS_BASE) m = x86::Mem(Reg::from_type_and_id(bt, bid), off, SIZE);
   else if constexpr (HAS_INDEX) m = x86::Mem(uint64_t(uint32_t(off)), Reg::from_type_and_id(it, iid), shift, SIZE);
   else m = x86::Mem(uint64_t(nondet_u64()), SIZE);
   if constexpr (SEG != 0) m.set_segment(x86::SReg(SEG));
-  uint32_t at = nondet_u8(); V_ASSUME(at < 3);
   if (at == 1) m.set_addr_abs(); else if (at == 2) m.set_addr_rel();
   FormatFlags ff = any_flags();
   bool hex = Support::test(ff, FormatFlags::kHexOffsets);
@@ -108,42 +108,60 @@ template<bool HAS_BASE, bool HAS_INDEX, uint32_t SIZE, uint32_t SEG, unsigned OF
   V_WITNESS("x86 mem formatted");
 }
 
-// dispatch over every operand size keyword (segment none) and over every segment (size none): constants on each path
-template<bool B, bool I, unsigned OFFBITS, unsigned MAXDEC> static void mem_sizes() {
+// one dimension per harness, all its values (constants on each path), the other dimensions fixed
+template<RegType B, RegType I, unsigned OFFBITS, unsigned MAXDEC> static void mem_sizes() {
   switch (nondet_u8()) {
-    case 0: mem_case<B, I, 0, 0, OFFBITS, MAXDEC>(); break;
-    case 1: mem_case<B, I, 1, 0, OFFBITS, MAXDEC>(); break;
-    case 2: mem_case<B, I, 2, 0, OFFBITS, MAXDEC>(); break;
-    case 3: mem_case<B, I, 4, 0, OFFBITS, MAXDEC>(); break;
-    case 4: mem_case<B, I, 6, 0, OFFBITS, MAXDEC>(); break;
-    case 5: mem_case<B, I, 8, 0, OFFBITS, MAXDEC>(); break;
-    case 6: mem_case<B, I, 10, 0, OFFBITS, MAXDEC>(); break;
-    case 7: mem_case<B, I, 16, 0, OFFBITS, MAXDEC>(); break;
-    case 8: mem_case<B, I, 32, 0, OFFBITS, MAXDEC>(); break;
-    case 9: mem_case<B, I, 64, 0, OFFBITS, MAXDEC>(); break;
+    case 0: mem_case<B, I, 0, 0, 0, 2, OFFBITS, MAXDEC>(); break;
+    case 1: mem_case<B, I, 1, 0, 0, 2, OFFBITS, MAXDEC>(); break;
+    case 2: mem_case<B, I, 2, 0, 0, 2, OFFBITS, MAXDEC>(); break;
+    case 3: mem_case<B, I, 4, 0, 0, 2, OFFBITS, MAXDEC>(); break;
+    case 4: mem_case<B, I, 6, 0, 0, 2, OFFBITS, MAXDEC>(); break;
+    case 5: mem_case<B, I, 8, 0, 0, 2, OFFBITS, MAXDEC>(); break;
+    case 6: mem_case<B, I, 10, 0, 0, 2, OFFBITS, MAXDEC>(); break;
+    case 7: mem_case<B, I, 16, 0, 0, 2, OFFBITS, MAXDEC>(); break;
+    case 8: mem_case<B, I, 32, 0, 0, 2, OFFBITS, MAXDEC>(); break;
+    case 9: mem_case<B, I, 64, 0, 0, 2, OFFBITS, MAXDEC>(); break;
     default: V_ASSUME(false);
   }
 }
-template<bool B, bool I, unsigned OFFBITS, unsigned MAXDEC> static void mem_segs() {
+template<RegType B, RegType I, unsigned OFFBITS, unsigned MAXDEC> static void mem_segs() {
   switch (nondet_u8()) {
-    case 1: mem_case<B, I, 0, 1, OFFBITS, MAXDEC>(); break;
-    case 2: mem_case<B, I, 4, 2, OFFBITS, MAXDEC>(); break;
-    case 3: mem_case<B, I, 0, 3, OFFBITS, MAXDEC>(); break;
-    case 4: mem_case<B, I, 8, 4, OFFBITS, MAXDEC>(); break;
-    case 5: mem_case<B, I, 0, 5, OFFBITS, MAXDEC>(); break;
-    case 6: mem_case<B, I, 16, 6, OFFBITS, MAXDEC>(); break;
+    case 1: mem_case<B, I, 0, 1, 0, 0, OFFBITS, MAXDEC>(); break;
+    case 2: mem_case<B, I, 4, 2, 0, 1, OFFBITS, MAXDEC>(); break;
+    case 3: mem_case<B, I, 0, 3, 0, 2, OFFBITS, MAXDEC>(); break;
+    case 4: mem_case<B, I, 8, 4, 0, 3, OFFBITS, MAXDEC>(); break;
+    case 5: mem_case<B, I, 0, 5, 1, 0, OFFBITS, MAXDEC>(); break;
+    case 6: mem_case<B, I, 16, 6, 2, 0, OFFBITS, MAXDEC>(); break;
     default: V_ASSUME(false);
   }
 }
-HARNESS h_x86mem_base_sizes() { mem_sizes<true, false, 12, 5>(); }
-HARNESS h_x86mem_base_index_sizes() { mem_sizes<true, true, 12, 5>(); }
-HARNESS h_x86mem_index_sizes() { mem_sizes<false, true, 12, 5>(); }
-HARNESS h_x86mem_abs_sizes() { mem_sizes<false, false, 12, 5>(); }
-HARNESS h_x86mem_base_segs() { mem_segs<true, false, 12, 5>(); }
-HARNESS h_x86mem_base_index_segs() { mem_segs<true, true, 12, 5>(); }
-HARNESS h_x86mem_abs_segs() { mem_segs<false, false, 12, 5>(); }
-HARNESS h_x86mem_base_index_wide() { mem_case<true, true, 8, 5, 31, 10>(); }
-HARNESS h_x86mem_abs_wide() { mem_case<false, false, 4, 0, 40, 13>(); }
-HARNESS h_t1() { mem_case<true, false, 0, 0, 12, 5>(); }
-HARNESS h_t2() { mem_case<true, true, 0, 0, 12, 5>(); }
-HARNESS h_t3() { mem_case<false, false, 0, 0, 12, 5>(); }
+template<RegType B, RegType I, unsigned OFFBITS, unsigned MAXDEC> static void mem_marks() {   // abs/rel marker x scale
+  switch (nondet_u8()) {
+    case 0: mem_case<B, I, 0, 0, 1, 0, OFFBITS, MAXDEC>(); break;
+    case 1: mem_case<B, I, 0, 0, 2, 1, OFFBITS, MAXDEC>(); break;
+    case 2: mem_case<B, I, 4, 0, 1, 2, OFFBITS, MAXDEC>(); break;
+    case 3: mem_case<B, I, 8, 0, 2, 3, OFFBITS, MAXDEC>(); break;
+    case 4: mem_case<B, I, 0, 0, 0, 0, OFFBITS, MAXDEC>(); break;
+    case 5: mem_case<B, I, 0, 0, 0, 1, OFFBITS, MAXDEC>(); break;
+    case 6: mem_case<B, I, 0, 0, 0, 3, OFFBITS, MAXDEC>(); break;
+    default: V_ASSUME(false);
+  }
+}
+constexpr RegType NONE = RegType::kNone, GP64 = RegType::kGp64, GP32 = RegType::kGp32, GP16 = RegType::kGp16, PC = RegType::kPC, XMM = RegType::kVec128, YMM = RegType::kVec256, ZMM = RegType::kVec512;
+HARNESS h_x86mem_base_sizes() { mem_sizes<GP64, NONE, 12, 5>(); }
+HARNESS h_x86mem_base_index_sizes() { mem_sizes<GP64, GP64, 12, 5>(); }
+HARNESS h_x86mem_index_sizes() { mem_sizes<NONE, GP64, 12, 5>(); }
+HARNESS h_x86mem_abs_sizes() { mem_sizes<NONE, NONE, 12, 5>(); }
+HARNESS h_x86mem_base_segs() { mem_segs<GP32, NONE, 12, 5>(); }
+HARNESS h_x86mem_base_index_segs() { mem_segs<GP32, GP32, 12, 5>(); }
+HARNESS h_x86mem_abs_segs() { mem_segs<NONE, NONE, 12, 5>(); }
+HARNESS h_x86mem_base_index_marks() { mem_marks<GP64, GP64, 12, 5>(); }
+HARNESS h_x86mem_index_marks() { mem_marks<NONE, GP32, 12, 5>(); }
+HARNESS h_x86mem_abs_marks() { mem_marks<NONE, NONE, 12, 5>(); }
+HARNESS h_x86mem_rip() { mem_marks<PC, NONE, 12, 5>(); }
+HARNESS h_x86mem_b16_i16() { mem_marks<GP16, GP16, 12, 5>(); }
+HARNESS h_x86mem_vsib_x() { mem_marks<GP64, XMM, 12, 5>(); }
+HARNESS h_x86mem_vsib_y() { mem_marks<GP32, YMM, 12, 5>(); }
+HARNESS h_x86mem_vsib_z() { mem_marks<NONE, ZMM, 12, 5>(); }
+HARNESS h_x86mem_base_index_wide() { mem_case<GP64, GP64, 8, 5, 0, 3, 31, 10>(); }
+HARNESS h_x86mem_abs_wide() { mem_case<NONE, NONE, 4, 0, 1, 0, 40, 13>(); }
